@@ -54,8 +54,11 @@ def getPrefixSynmap (recs : List Record) : Dict Str :=
 def getReversePrefixMap (recs : List Record) : Dict Str :=
   recs.foldl (fun d r => Dict.setAll (Dict.set d r.uri r.pfx) r.uSyn r.pfx) []
 /-- `_get_pattern_map` -/
-def getPatternMap (recs : List Record) : Dict Str :=
-  recs.foldl (fun d r => match r.truePattern with | some p => Dict.set d r.pfx p | none => d) []
+def patSet (d : Dict Str) (r : Record) : Dict Str :=
+  match r.truePattern with
+  | some p => Dict.set d r.pfx p
+  | none => d
+def getPatternMap (recs : List Record) : Dict Str := recs.foldl patSet []
 
 /-- The seven attributes set by `Converter.__init__`. -/
 structure Conv where
